@@ -53,10 +53,10 @@ func (c *Conversation) processAKE(msgType byte, msg []byte) (toSend []messageWit
 		c.ake.state, toSendSingle, err = c.ake.state.receiveDHKeyMessage(c, msg)
 	case msgTypeRevealSig:
 		c.ake.state, toSendSingle, err = c.ake.state.receiveRevealSigMessage(c, msg)
-		toSendExtra, _ = c.maybeRetransmit()
+		toSendExtra = c.retransmitIfExchangeFinished(previousState, err)
 	case msgTypeSig:
 		c.ake.state, toSendSingle, err = c.ake.state.receiveSigMessage(c, msg)
-		toSendExtra, _ = c.maybeRetransmit()
+		toSendExtra = c.retransmitIfExchangeFinished(previousState, err)
 	default:
 		err = newOtrErrorf("unknown message type 0x%X", msgType)
 	}
@@ -71,6 +71,19 @@ func (c *Conversation) processAKE(msgType byte, msg []byte) (toSend []messageWit
 	toSend = compactMessagesWithHeader(messages...)
 
 	return
+}
+
+// retransmitIfExchangeFinished sends the pending messages again once a key
+// exchange has been completed by the message just processed. A reveal
+// signature or signature message that was ignored or rejected completes
+// nothing: retransmitting then would use up the pending messages in the
+// session that is being replaced (and their output is dropped with the error).
+func (c *Conversation) retransmitIfExchangeFinished(previousState int, err error) []messageWithHeader {
+	if err != nil || c.ake.state.identity() == previousState {
+		return nil
+	}
+	toSend, _ := c.maybeRetransmit()
+	return toSend
 }
 
 type authStateBase struct{}
